@@ -237,31 +237,6 @@ Proof.
   apply (tx_frames_select l0); auto.
 Qed.
 
-(* ------------------------------------------------------------------ main theorem *)
-Theorem recover_fc_selected l0 ts extra sel :
-  log_valid l0 ts -> consec (l0 + lenN (log_frames ts)) extra -> Forall fr_ok extra ->
-  incl sel ts ->
-  recover_fc H (log_frames ts ++ extra) (map w_commit sel) =
-  Ok (map rtx_of sel, fc_tail (log_frames ts ++ extra) (map w_commit sel)).
-Proof.
-  intros Hv He Hoe Hin.
-  unfold recover_fc.
-  destruct (log_valid_consec _ _ Hv) as [Hc Ho].
-  rewrite (validate_order_consec l0).
-  2:{ apply consec_app. split; [exact Hc|exact He]. }
-  2:{ apply Forall_app. split; auto. }
-  assert (Hrc : recover_commits H (log_frames ts ++ extra) (map w_commit sel) = Ok (map rtx_of sel)).
-  { induction sel as [|t sel IH]; [reflexivity|].
-    cbn [map recover_commits].
-    assert (Ht : In t ts) by (apply Hin; left; reflexivity).
-    rewrite (tx_frames_in l0) by auto.
-    destruct Hv as [Hall _]. rewrite Forall_forall in Hall.
-    destruct (Hall t Ht) as (_ & _ & Hvt). rewrite Hvt.
-    rewrite IH; [reflexivity|].
-    intros x Hx. apply Hin. right. exact Hx. }
-  rewrite Hrc. reflexivity.
-Qed.
-
 (* ------------------------------------------------------------------ tails *)
 Lemma last_commit_lsn_snoc cs c : last_commit_lsn (cs ++ [c]) = Some (c_last c).
 Proof. unfold last_commit_lsn. rewrite rev_app_distr. reflexivity. Qed.
@@ -301,83 +276,178 @@ Proof.
     reflexivity.
 Qed.
 
+(* ------------------------------------------------------------------ the commit loop on the log's own markers *)
+Lemma min_lsn_consec l fs : consec l fs -> fs <> [] -> min_lsn fs = Some l.
+Proof.
+  revert l; induction fs as [|f fs IH]; intros l Hc Hn; [congruence|].
+  destruct Hc as [Hf Hc]. unfold min_lsn in *. cbn [fold_right].
+  destruct fs as [|g fs']; [cbn; congruence|].
+  rewrite (IH (l + 1)) by (auto; discriminate). f_equal. lia.
+Qed.
+
+Lemma chain_first l0 a t b : log_valid l0 (a ++ t :: b) ->
+  c_first (w_commit t) = l0 + lenN (log_frames a) /\
+  c_last (w_commit t) + 1 = l0 + lenN (log_frames (a ++ [t])).
+Proof.
+  intros Hv. destruct (log_valid_app _ _ _ Hv) as [_ Htb].
+  apply log_valid_cons in Htb. destruct Htb as (Ht & Hf & _).
+  destruct (tx_valid_shape t Ht) as (_ & _ & _ & _ & Hl).
+  split; [exact Hf|].
+  rewrite log_frames_app, lenN_app, log_frames_cons. cbn [log_frames flat_map]. rewrite app_nil_r. lia.
+Qed.
+
+(* [expected] is compatible with a suffix that starts at LSN l *)
+Definition exp_ok (expected : option N) (l : N) : Prop := expected = None \/ expected = Some l.
+
+Lemma lsn_next_ok l : exp_ok (lsn_next l) (l + 1).
+Proof. unfold lsn_next, exp_ok. destruct (l =? 2 ^ 64 - 1); auto. Qed.
+
+Lemma recover_commits_suffix l0 extra suf : forall pre expected,
+  log_valid l0 (pre ++ suf) -> consec (l0 + lenN (log_frames (pre ++ suf))) extra ->
+  exp_ok expected (l0 + lenN (log_frames pre)) ->
+  recover_commits H (log_frames (pre ++ suf) ++ extra) expected (map w_commit suf) = Ok (map rtx_of suf).
+Proof.
+  induction suf as [|t suf IH]; intros pre expected Hv He Hx; [reflexivity|].
+  cbn [map recover_commits].
+  destruct (chain_first l0 pre t suf Hv) as [Hf Hl].
+  replace (match expected with Some e => negb (c_first (w_commit t) =? e) | None => false end) with false.
+  2:{ destruct Hx as [->| ->]; [reflexivity|]. rewrite Hf, N.eqb_refl. reflexivity. }
+  rewrite (tx_frames_in l0) by (auto; apply in_or_app; right; left; reflexivity).
+  destruct Hv as [Hall Hch]. pose proof Hall as Hall0. rewrite Forall_forall in Hall.
+  destruct (Hall t ltac:(apply in_or_app; right; left; reflexivity)) as (_ & _ & Hvt). rewrite Hvt.
+  replace (pre ++ t :: suf) with ((pre ++ [t]) ++ suf) in * by (rewrite <- app_assoc; reflexivity).
+  rewrite (IH (pre ++ [t]) (lsn_next (c_last (w_commit t)))); [reflexivity|split; assumption|exact He|].
+  rewrite <- Hl. apply lsn_next_ok.
+Qed.
+
 (* C10: the whole committed log, followed by any uncommitted frames, recovers to exactly the
    committed transactions, with the tail posture that names the uncommitted part *)
 Theorem recover_fc_log l0 ts extra :
   log_valid l0 ts -> consec (l0 + lenN (log_frames ts)) extra -> Forall fr_ok extra ->
   recover_fc H (log_frames ts ++ extra) (map w_commit ts) = Ok (map rtx_of ts, expected_tail ts extra).
 Proof.
-  intros Hv He Ho. rewrite (recover_fc_selected l0) by (auto using incl_refl).
-  rewrite (fc_tail_log l0) by auto. reflexivity.
+  intros Hv He Ho. unfold recover_fc.
+  destruct (log_valid_consec _ _ Hv) as [Hc Hok].
+  rewrite (validate_order_consec l0).
+  2:{ apply consec_app. split; [exact Hc|exact He]. }
+  2:{ apply Forall_app. split; auto. }
+  pose proof (recover_commits_suffix l0 extra ts [] (min_lsn (log_frames ts ++ extra))) as R.
+  cbn [app] in R. rewrite R; [|exact Hv|exact He|].
+  - rewrite (fc_tail_log l0) by auto. reflexivity.
+  - cbn [log_frames flat_map]. unfold lenN at 1. cbn [length]. rewrite N.add_0_r.
+    destruct (log_frames ts ++ extra) as [|f fs] eqn:E; [left; reflexivity|].
+    right. apply min_lsn_consec; [|discriminate]. rewrite <- E. apply consec_app. split; assumption.
 Qed.
 
-(* C11 (F7), universally: removing the commit marker of any transaction that is not the last one is
-   accepted - the transaction silently disappears and the tail is reported Clean *)
-Theorem commit_removal_accepted l0 a t b :
-  log_valid l0 (a ++ t :: b) -> b <> [] ->
-  recover_fc H (log_frames (a ++ t :: b)) (map w_commit (a ++ b)) = Ok (map rtx_of (a ++ b), TClean).
+(* ------------------------------------------------------------------ C11: selections of the log's markers *)
+(* two prefixes of one log with the same number of frames are equal (every transaction has a frame) *)
+Lemma prefix_by_frames (all : list wtx) : forall a b x y,
+  Forall (fun t => w_frames t <> []) all -> all = a ++ x -> all = b ++ y ->
+  lenN (log_frames a) = lenN (log_frames b) -> x <> [] -> y <> [] -> a = b.
 Proof.
-  intros Hv Hb.
-  pose proof (recover_fc_selected l0 (a ++ t :: b) [] (a ++ b) Hv) as R.
-  rewrite app_nil_r in R. rewrite R; [|exact I|constructor|].
-  2:{ intros x Hx. apply in_app_or in Hx. apply in_or_app. destruct Hx; [left|right; right]; auto. }
-  f_equal. f_equal.
-  pose proof (fc_tail_log l0 (a ++ t :: b) [] Hv) as T. rewrite app_nil_r in T.
-  unfold fc_tail in *. rewrite !map_app in *. cbn [map] in T.
-  rewrite last_commit_lsn_app by (destruct b; [congruence|discriminate]).
-  rewrite last_commit_lsn_app in T by discriminate.
-  change (w_commit t :: map w_commit b) with ([w_commit t] ++ map w_commit b) in T.
-  rewrite last_commit_lsn_app in T by (destruct b; [congruence|discriminate]).
-  apply T. exact I.
+  induction all as [|t all IH]; intros a b x y Hne Ea Eb Hl Hx Hy.
+  - destruct a; [|discriminate]. destruct b; [reflexivity|discriminate].
+  - inversion Hne as [|? ? Ht Hne']; subst.
+    assert (Hpos : 1 <= lenN (w_frames t)).
+    { destruct (w_frames t); [congruence|]. rewrite lenN_cons. lia. }
+    destruct a as [|ta a'], b as [|tb b']; cbn [app] in *.
+    + reflexivity.
+    + exfalso. inversion Eb; subst. rewrite log_frames_cons, lenN_app in Hl.
+      cbn [log_frames flat_map] in Hl. unfold lenN at 1 in Hl. cbn [length] in Hl. lia.
+    + exfalso. inversion Ea; subst. rewrite log_frames_cons, lenN_app in Hl.
+      cbn [log_frames flat_map] in Hl. unfold lenN at 3 in Hl. cbn [length] in Hl. lia.
+    + inversion Ea; inversion Eb; subst. f_equal.
+      rewrite !log_frames_cons, !lenN_app in Hl.
+      eapply (IH a' b' x y); eauto. lia.
 Qed.
 
-(* ... a commit marker that occurs twice yields the transaction twice ... *)
-Theorem commit_duplicate_accepted l0 a t b :
-  log_valid l0 (a ++ t :: b) ->
-  recover_fc H (log_frames (a ++ t :: b)) (map w_commit (a ++ t :: t :: b)) =
-  Ok (map rtx_of (a ++ t :: t :: b), TClean).
+Lemma nonempty_frames l0 ts : log_valid l0 ts -> Forall (fun t => w_frames t <> []) ts.
 Proof.
-  intros Hv.
-  pose proof (recover_fc_selected l0 (a ++ t :: b) [] (a ++ t :: t :: b) Hv) as R.
-  rewrite app_nil_r in R. rewrite R; [|exact I|constructor|].
-  2:{ intros x Hx. apply in_app_or in Hx. apply in_or_app.
-      destruct Hx as [Hx|[Hx|Hx]]; [left; auto|right; left; auto|right; auto]. }
-  f_equal. f_equal.
-  pose proof (fc_tail_log l0 (a ++ t :: b) [] Hv) as T. rewrite app_nil_r in T.
-  unfold fc_tail in *. rewrite !map_app in *. cbn [map] in *.
-  rewrite last_commit_lsn_app by discriminate.
-  rewrite last_commit_lsn_app in T by discriminate.
-  change (w_commit t :: w_commit t :: map w_commit b)
-    with ([w_commit t] ++ w_commit t :: map w_commit b).
-  rewrite last_commit_lsn_app by discriminate.
-  apply T. exact I.
+  intros [Hall _]. eapply Forall_impl; [|exact Hall]. cbv beta. intros t Ht.
+  destruct (tx_valid_shape t Ht) as (Hn & _). exact Hn.
 Qed.
 
-(* ... and two adjacent commit markers in the wrong order yield the transactions in the wrong order *)
-Theorem commit_swap_accepted l0 a t1 t2 b :
-  log_valid l0 (a ++ t1 :: t2 :: b) -> b <> [] ->
-  recover_fc H (log_frames (a ++ t1 :: t2 :: b)) (map w_commit (a ++ t2 :: t1 :: b)) =
-  Ok (map rtx_of (a ++ t2 :: t1 :: b), TClean).
+(* Among the commit markers of a valid log, the one that starts at the first LSN of a suffix is the
+   head of that suffix. *)
+Lemma marker_at_start l0 pre suf t :
+  log_valid l0 (pre ++ suf) -> suf <> [] -> In t (pre ++ suf) ->
+  c_first (w_commit t) = l0 + lenN (log_frames pre) -> exists rest, suf = t :: rest.
 Proof.
-  intros Hv Hb.
-  pose proof (recover_fc_selected l0 (a ++ t1 :: t2 :: b) [] (a ++ t2 :: t1 :: b) Hv) as R.
-  rewrite app_nil_r in R. rewrite R; [|exact I|constructor|].
-  2:{ intros x Hx. apply in_app_or in Hx. apply in_or_app.
-      destruct Hx as [Hx|[Hx|[Hx|Hx]]]; [left; auto|right; right; left; auto|right; left; auto|right; right; right; auto]. }
-  f_equal. f_equal.
-  pose proof (fc_tail_log l0 (a ++ t1 :: t2 :: b) [] Hv) as T. rewrite app_nil_r in T.
-  unfold fc_tail in *. rewrite !map_app in *. cbn [map] in *.
-  assert (Hmb : map w_commit b <> []) by (destruct b; [congruence|discriminate]).
-  change (w_commit t2 :: w_commit t1 :: map w_commit b)
-    with ([w_commit t2; w_commit t1] ++ map w_commit b).
-  change (w_commit t1 :: w_commit t2 :: map w_commit b)
-    with ([w_commit t1; w_commit t2] ++ map w_commit b) in T.
-  rewrite app_assoc, last_commit_lsn_app by exact Hmb.
-  rewrite app_assoc, last_commit_lsn_app in T by exact Hmb.
-  apply T. exact I.
+  intros Hv Hs Hin Hf.
+  destruct (in_split _ _ Hin) as (a & b & E).
+  rewrite E in Hv. destruct (chain_first l0 a t b Hv) as [Hf' _]. rewrite <- E in Hv.
+  assert (Ea : a = pre).
+  { eapply (prefix_by_frames (pre ++ suf) a pre (t :: b) suf); eauto using nonempty_frames.
+    - lia.
+    - discriminate. }
+  subst a. apply app_inv_head in E. exists b. exact E.
 Qed.
 
-End WithHash.
+(* C11 detection: feed recover_from_frames_and_commits the frames of a valid log and ANY list made of
+   that log's own commit markers (markers removed, duplicated, reordered).  If it succeeds, the list is
+   a prefix of the log's markers and the recovered history is the corresponding prefix of the committed
+   history.  (LSN space not exhausted: no transaction ends at 2^64-1.) *)
+Lemma recover_commits_prefix l0 extra cs : forall pre suf r,
+  log_valid l0 (pre ++ suf) -> consec (l0 + lenN (log_frames (pre ++ suf))) extra ->
+  Forall (fun t => c_last (w_commit t) <> 2 ^ 64 - 1) (pre ++ suf) ->
+  incl cs (map w_commit (pre ++ suf)) ->
+  recover_commits H (log_frames (pre ++ suf) ++ extra) (Some (l0 + lenN (log_frames pre))) cs = Ok r ->
+  exists n, cs = map w_commit (firstn n suf) /\ r = map rtx_of (firstn n suf).
+Proof.
+  induction cs as [|c cs IH]; intros pre suf r Hv He Hnx Hin Hr.
+  - cbn in Hr. inversion Hr. exists 0%nat. split; reflexivity.
+  - cbn [recover_commits] in Hr.
+    destruct (c_first c =? l0 + lenN (log_frames pre)) eqn:Ef; cbn [negb] in Hr; [|discriminate].
+    apply N.eqb_eq in Ef.
+    assert (Hc : In c (map w_commit (pre ++ suf))) by (apply Hin; left; reflexivity).
+    apply in_map_iff in Hc. destruct Hc as (t & <- & Ht).
+    assert (Hs : suf <> []).
+    { intros ->. rewrite app_nil_r in *.
+      destruct (in_split _ _ Ht) as (a & b & E). rewrite E in Hv.
+      destruct (chain_first l0 a t b Hv) as [Hf' _].
+      rewrite E, log_frames_app, lenN_app, log_frames_cons, lenN_app in Ef.
+      destruct (log_valid_app _ _ _ Hv) as [_ Htb]. apply log_valid_cons in Htb.
+      destruct Htb as (Htv & _ & _). destruct (tx_valid_shape t Htv) as (Hn & _).
+      assert (1 <= lenN (w_frames t)) by (destruct (w_frames t); [congruence|rewrite lenN_cons; lia]).
+      lia. }
+    destruct (marker_at_start l0 pre suf t Hv Hs Ht Ef) as [rest ->].
+    rewrite (tx_frames_in l0) in Hr by auto.
+    destruct Hv as [Hall Hch]. pose proof Hall as Hall0. rewrite Forall_forall in Hall.
+    destruct (Hall t Ht) as (_ & _ & Hvt). rewrite Hvt in Hr.
+    destruct (chain_first l0 pre t rest (conj Hall0 Hch)) as [_ Hl].
+    assert (Hnext : lsn_next (c_last (w_commit t)) = Some (l0 + lenN (log_frames (pre ++ [t])))).
+    { unfold lsn_next. rewrite Forall_forall in Hnx. specialize (Hnx t Ht).
+      replace (c_last (w_commit t) =? 2 ^ 64 - 1) with false by (symmetry; apply N.eqb_neq; exact Hnx).
+      rewrite Hl. reflexivity. }
+    rewrite Hnext in Hr.
+    replace (pre ++ t :: rest) with ((pre ++ [t]) ++ rest) in * by (rewrite <- app_assoc; reflexivity).
+    destruct (recover_commits H (log_frames ((pre ++ [t]) ++ rest) ++ extra)
+                (Some (l0 + lenN (log_frames (pre ++ [t])))) cs) as [r'|e] eqn:Er; [|discriminate].
+    inversion Hr; subst r.
+    destruct (IH (pre ++ [t]) rest r' (conj Hall0 Hch) He Hnx) as (n & -> & ->); auto.
+    + intros x Hx. apply Hin. right. exact Hx.
+    + exists (S n). split; reflexivity.
+Qed.
+
+Theorem commit_selection_detected l0 ts extra cs r :
+  log_valid l0 ts -> consec (l0 + lenN (log_frames ts)) extra -> Forall fr_ok extra ->
+  Forall (fun t => c_last (w_commit t) <> 2 ^ 64 - 1) ts ->
+  incl cs (map w_commit ts) -> log_frames ts <> [] ->
+  recover_fc H (log_frames ts ++ extra) cs = Ok r ->
+  exists n, cs = map w_commit (firstn n ts) /\ fst r = map rtx_of (firstn n ts).
+Proof.
+  intros Hv He Ho Hnx Hin Hne Hr. unfold recover_fc in Hr.
+  destruct (validate_order H (log_frames ts ++ extra)); [|discriminate].
+  destruct (log_valid_consec _ _ Hv) as [Hc _].
+  assert (Hm : min_lsn (log_frames ts ++ extra) = Some l0).
+  { apply min_lsn_consec; [apply consec_app; split; assumption|].
+    destruct (log_frames ts); [congruence|discriminate]. }
+  rewrite Hm in Hr.
+  destruct (recover_commits H (log_frames ts ++ extra) (Some l0) cs) as [txs|e] eqn:Er; [|discriminate].
+  inversion Hr; subst r. cbn [fst].
+  apply (recover_commits_prefix l0 extra cs [] ts txs); auto.
+  cbn [log_frames flat_map app]. unfold lenN at 1. cbn [length]. rewrite N.add_0_r. exact Er.
+Qed.
 
 (* ------------------------------------------------------------------ a concrete log (non-vacuity) *)
 (* A deliberately weak "hash" - the theorems hold for every function. *)
